@@ -198,7 +198,10 @@ func (r *objectSetPhasesReconciler) reconcile(
 		return nil, controllers.ProbingResult{}, fmt.Errorf("parsing probes: %w", err)
 	}
 
-	var controllerOfAll []corev1alpha1.ControlledObjectReference
+	var (
+		controllerOfAll []corev1alpha1.ControlledObjectReference
+		firstFailure    controllers.ProbingResult
+	)
 	for _, phase := range objectSet.GetPhases() {
 		controllerOf, probingResult, err := r.reconcilePhase(
 			ctx, objectSet, phase, probe, previous)
@@ -210,12 +213,21 @@ func (r *objectSetPhasesReconciler) reconcile(
 		controllerOfAll = append(controllerOfAll, controllerOf...)
 
 		if !probingResult.IsZero() {
-			// break on first failing probe
-			return controllerOfAll, probingResult, nil
+			if !objectSet.IsSpecPaused() {
+				// break on first failing probe
+				return controllerOfAll, probingResult, nil
+			}
+
+			// A paused ObjectSet changes no object, so there is no rollout to gate.
+			// Continue, so the paused state reaches every delegated phase even
+			// when an earlier phase is failing, but report the first failing phase.
+			if firstFailure.IsZero() {
+				firstFailure = probingResult
+			}
 		}
 	}
 
-	return controllerOfAll, controllers.ProbingResult{}, nil
+	return controllerOfAll, firstFailure, nil
 }
 
 func (r *objectSetPhasesReconciler) reconcilePhase(
